@@ -85,6 +85,7 @@ fn replay(rec: &Value) -> (String, Report) {
         "C05" => c04::replay_c05(&case),
         "C06" => c04::replay_c06(&case),
         "C07" => c04::replay_c07(&case),
+        "C04-session" | "C05-session" | "C06-session" => c04::replay_session(&case),
         "C08-seal" => c08::replay_seal(&case),
         "C09" => c09::replay(&case),
         "C10" => c10::replay(&case),
